@@ -368,25 +368,27 @@ func c15Handlers(r *Run) {
 		r.Check(k+"returns-map", theMap != nil && ret.Results[0] == theMap, r.Where(ret), "returns "+r.D.D(ret.Results[0]))
 	}
 	dels := CallsTo(fn, "delete")
-	deleted := map[string]ssa.CallInstruction{}
 	for _, d := range dels {
 		a := CallArgs(d)
 		key := r.D.D(a[1])
 		if a[0] != theMap {
 			continue
 		}
-		deleted[key] = d
 		_, isSubmit := submit[key]
 		r.Check(k+"delete["+pathTail(key)+"]", isSubmit, r.Where(d), "removes "+key+" (only the two submission endpoints may be removed)")
 	}
+	// whether an endpoint is in the returned map is decided on the map's history along the paths of each
+	// valuation: entered by m[key] = …, removed by delete(m, key) — so "registered, then removed" and
+	// "registered only when wanted" are the same thing
+	_, fresh := theMap.(*ssa.MakeMap)
+	r.Check(k+"fresh-map", fresh, r.FnPos(fn), "the handler map is created in Handlers (starts empty)")
 	res, err := r.D.Table(fn, nil, nil, []RuleAtom{{Name: "ro", Pat: "*IsReadonly*"}, {Name: "mi", Pat: "*IsMirror*"}},
 		func(val map[string]string, reach *Reach, s Sigma) {
 			wantGone := val["ro"] == "T" || val["mi"] == "T"
 			for p, h := range submit {
-				d, ok := deleted[p]
-				gone := ok && reach.Has(d)
-				r.Check(fmt.Sprintf("%s%s[readonly=%s,mirror=%s]", k, short(h), val["ro"], val["mi"]), gone == wantGone, r.FnPos(fn),
-					fmt.Sprintf("endpoint %s removed=%v; statement: removed iff read-only or mirror (%v)", pathTail(p), gone, wantGone))
+				state := c15KeyPresence(r, fn, reach, theMap, p)
+				r.Check(fmt.Sprintf("%s%s[readonly=%s,mirror=%s]", k, short(h), val["ro"], val["mi"]), fresh && (state == "absent") == wantGone && (state == "present") == !wantGone, r.FnPos(fn),
+					fmt.Sprintf("endpoint %s in the returned map: %s; statement: removed iff read-only or mirror (%v)", pathTail(p), state, wantGone))
 			}
 		})
 	if err != nil {
@@ -428,6 +430,87 @@ func c15Handlers(r *Run) {
 	r.ExpectCallers("who:logInfo.Handlers", "(*trillian/ctfe.logInfo).Handlers", c15cfg+"SetUpInstance")
 }
 
+// c15KeyPresence decides whether the entry with key term `key` is in map m when fn returns, over the edges of one
+// walk: forward data flow of {absent, present} from the empty map through m[key] = … (present) and delete(m, key)
+// (absent); updates / deletes with another key term leave the entry alone when both terms are the same prefix plus
+// different constants, and make it "either" otherwise. Result: "absent", "present", or "either" (undecided).
+func c15KeyPresence(r *Run, fn *ssa.Function, reach *Reach, m ssa.Value, key string) string {
+	const (
+		none = iota
+		absent
+		present
+		either
+	)
+	join := func(a, b int) int {
+		switch {
+		case a == none:
+			return b
+		case b == none || a == b:
+			return a
+		}
+		return either
+	}
+	distinct := func(other string) bool { // "(P + c1)" vs "(P + c2)" with different constants
+		a1, a2, ok1 := sgAddOperands(key)
+		b1, b2, ok2 := sgAddOperands(other)
+		return ok1 && ok2 && a1 == b1 && a2 != b2 && strings.HasPrefix(a2, `"`) && strings.HasPrefix(b2, `"`)
+	}
+	transfer := func(b *ssa.BasicBlock, st int) int {
+		for _, in := range b.Instrs {
+			switch x := in.(type) {
+			case *ssa.MapUpdate:
+				if x.Map != m {
+					continue
+				}
+				if k := r.D.D(x.Key); k == key {
+					st = present
+				} else if !distinct(k) && st == absent {
+					st = either
+				}
+			case ssa.CallInstruction:
+				if CalleeOf(x) != "delete" || len(CallArgs(x)) != 2 || CallArgs(x)[0] != m {
+					continue
+				}
+				if k := r.D.D(CallArgs(x)[1]); k == key {
+					st = absent
+				} else if !distinct(k) && st == present {
+					st = either
+				}
+			}
+		}
+		return st
+	}
+	in := map[*ssa.BasicBlock]int{fn.Blocks[0]: absent}
+	out := map[*ssa.BasicBlock]int{}
+	for changed := true; changed; {
+		changed = false
+		for _, b := range fn.Blocks {
+			if !reach.Blocks[b] {
+				continue
+			}
+			st := in[b]
+			for _, p := range b.Preds {
+				if reach.Edges[[2]int{p.Index, b.Index}] {
+					st = join(st, out[p])
+				}
+			}
+			o := none
+			if st != none {
+				o = transfer(b, st)
+			}
+			if st != in[b] || o != out[b] {
+				in[b], out[b] = st, o
+				changed = true
+			}
+		}
+	}
+	res := none
+	for _, ret := range reachableReturns(fn, reach) {
+		res = join(res, out[ret.Block()])
+	}
+	return [...]string{"unreachable", "absent", "present", "either"}[res]
+}
+
 func pathTail(term string) string {
 	if i := strings.LastIndex(term, `"/`); i >= 0 {
 		return strings.Trim(term[i:], `")`)
@@ -438,6 +521,23 @@ func pathTail(term string) string {
 // ---- R4: STH getter selection -------------------------------------------------------------
 
 func c15Getters(r *Run) {
+	// the two getter fields the rules follow are named by their use, not by their spelling: the STH a frozen getter
+	// serves is the field its GetSTH returns, a mirror getter's storage the field whose GetMirrorSTH it calls
+	fSTH, fStorage := "sth", "st"
+	if fn := r.P.Func("(*trillian/ctfe.FrozenSTHGetter).GetSTH"); fn != nil {
+		for _, ret := range Returns(fn) {
+			if f := c15OwnField(r, "FrozenSTHGetter", r.D.D(ret.Results[0])); f != "" {
+				fSTH = f
+			}
+		}
+	}
+	if fn := r.P.Func("(*trillian/ctfe.MirrorSTHGetter).GetSTH"); fn != nil {
+		for _, c := range CallsTo(fn, "iface(trillian/ctfe.MirrorSTHStorage).GetMirrorSTH") {
+			if f := c15OwnField(r, "MirrorSTHGetter", r.D.D(CallArgs(c)[0])); f != "" {
+				fStorage = f
+			}
+		}
+	}
 	if fn := r.Fn(c15cfg + "newLogInfo"); fn != nil {
 		k := "newLogInfo:"
 		sts := r.StoresTo(fn, "&(new:trillian/ctfe.logInfo#*.sthGetter)")
@@ -459,13 +559,24 @@ func c15Getters(r *Run) {
 				fields := map[string]string{"li": li}
 				switch {
 				case val["fz"] == "non":
-					want, fields = "new:trillian/ctfe.FrozenSTHGetter#*", map[string]string{"sth": "p0.Validated.FrozenSTH"}
+					want, fields = "new:trillian/ctfe.FrozenSTHGetter#*", map[string]string{fSTH: "p0.Validated.FrozenSTH"}
 				case val["mi"] == "T":
-					want, fields = "new:trillian/ctfe.MirrorSTHGetter#*", map[string]string{"li": li, "st": "p0.STHStorage || phi(p0.STHStorage|zero:trillian/ctfe.DefaultMirrorSTHStorage)"}
+					want, fields = "new:trillian/ctfe.MirrorSTHGetter#*", map[string]string{"li": li, fStorage: "p0.STHStorage || phi(p0.STHStorage|zero:trillian/ctfe.DefaultMirrorSTHStorage)"}
 				}
 				key := fmt.Sprintf("%sgetter[frozen=%s,mirror=%s]", k, val["fz"], val["mi"])
 				if r.Check(key, len(got) == 1 && glob(want, got[0]), r.FnPos(fn), fmt.Sprintf("sthGetter ← %v, statement wants %s", got, want)) {
-					r.ExpectFields(fn, key, hit.Val, fields)
+					// keyed by the role of the field ("sth": what FrozenSTHGetter.GetSTH returns, "st": the storage MirrorSTHGetter.GetSTH queries)
+					if a := baseAlloc(hit.Val); a == nil {
+						r.Fail(key, r.FnPos(fn), "undecided: value "+r.D.D(hit.Val)+" is not built in a local allocation")
+					} else {
+						for _, f := range keysOf(fields) {
+							role := map[string]string{fSTH: "sth", fStorage: "st"}[f]
+							if role == "" {
+								role = f
+							}
+							r.ExpectStores(fn, key+"."+role, "&("+r.D.allocName(a)+"."+f+")", fields[f], 1)
+						}
+					}
 				}
 			})
 		if err != nil {
@@ -481,6 +592,9 @@ func c15Getters(r *Run) {
 	}
 	for field, owner := range map[string]string{"logInfo.sthGetter": "newLogInfo", "FrozenSTHGetter.sth": "newLogInfo", "Instance.STHGetter": "SetUpInstance"} {
 		w := r.FieldWriters(c15cfg + field)
+		if field == "FrozenSTHGetter.sth" {
+			w = r.FieldWriters(c15cfg + "FrozenSTHGetter." + fSTH)
+		}
 		r.Check("who:"+field+"@"+owner, len(w[c15cfg+owner]) > 0, "-", fmt.Sprintf("%s writes %s (positive control)", owner, field))
 		for _, g := range keysOf(w) {
 			if g != c15cfg+owner {
@@ -495,20 +609,22 @@ func c15Getters(r *Run) {
 	}
 	if fn := r.Fn("(*trillian/ctfe.FrozenSTHGetter).GetSTH"); fn != nil {
 		for _, ret := range Returns(fn) {
-			r.Check("FrozenSTHGetter.GetSTH:returns-frozen", r.D.D(ret.Results[0]) == "p0.sth" && errKind(ret.Results[1]) == "nil", r.Where(ret),
+			r.Check("FrozenSTHGetter.GetSTH:returns-frozen", r.D.D(ret.Results[0]) == "p0."+fSTH && errKind(ret.Results[1]) == "nil", r.Where(ret),
 				fmt.Sprintf("returns (%s, %s)", r.D.D(ret.Results[0]), r.D.D(ret.Results[1])))
 		}
 		r.Check("FrozenSTHGetter.GetSTH:no-calls", len(CallsTo(fn, "*")) == 0, r.FnPos(fn), "the frozen getter consults nothing else")
 	}
 	if fn := r.Fn("(*trillian/ctfe.MirrorSTHGetter).GetSTH"); fn != nil {
 		k := "MirrorSTHGetter.GetSTH:"
-		if c := r.OneCall(fn, k+"root", c15cfg+"getSignedLogRoot"); c != nil {
-			r.ExpectArg(c, k+"root.client", 1, "p0.li.rpcClient")
-			r.ExpectArg(c, k+"root.logID", 2, "p0.li.logID")
-		}
+		// the backend root: fetched by getSignedLogRoot — whichever way the log's client and tree id reach it (as
+		// arguments, or inside a struct it reads them from: the terms of its RPC are rendered in the caller's terms) —
+		// or, where that helper's body stands in GetSTH itself, decoded here from the backend's answer
+		root := c15BackendRoot(r, fn, k)
 		if c := r.OneCall(fn, k+"storage", "iface(trillian/ctfe.MirrorSTHStorage).GetMirrorSTH"); c != nil {
-			r.ExpectArg(c, k+"storage.receiver", 0, "p0.st")
-			r.ExpectArg(c, k+"storage.maxTreeSize", 2, "trillian/ctfe.getSignedLogRoot(*)#0.TreeSize")
+			r.ExpectArg(c, k+"storage.receiver", 0, "p0."+fStorage)
+			if root != "" {
+				r.ExpectArg(c, k+"storage.maxTreeSize", 2, root+".TreeSize")
+			}
 		}
 		r.ErrorsGate(fn, k+"errors", "*", 2)
 		for _, ret := range sgOkReturns(fn) {
@@ -578,12 +694,17 @@ func c15SetUp(r *Run) {
 			"trustedRoots":    "x509util.NewPEMCertPool()",
 			"rejectExpired":   "*Config.RejectExpired || *GetRejectExpired(*)",
 			"rejectUnexpired": "*Config.RejectUnexpired || *GetRejectUnexpired(*)",
-			"notAfterStart":   "*Validated.NotAfterStart",
-			"notAfterLimit":   "*Validated.NotAfterLimit",
 			"acceptOnlyCA":    "*Config.AcceptOnlyCa || *GetAcceptOnlyCa(*)",
 			"extKeyUsages":    "*Validated.KeyUsages",
 			"rejectExtIds":    "trillian/ctfe.parseOIDs(*RejectExtensions*)#0",
 		})
+		// the window bounds: the fields that ValidateChain compares as start / limit (see c18WindowFields)
+		if fStart, fLimit := c18WindowFields(r); a != nil {
+			r.ExpectStores(fn, k+"validationOpts.notAfterStart", "&("+r.D.allocName(a)+"."+fStart+")", "*Validated.NotAfterStart", 1)
+			r.ExpectStores(fn, k+"validationOpts.notAfterLimit", "&("+r.D.allocName(a)+"."+fLimit+")", "*Validated.NotAfterLimit", 1)
+		} else {
+			r.Fail(k+"validationOpts.notAfterStart", r.FnPos(fn), "undecided: the validation options are not built in a local allocation")
+		}
 	}
 	if c := r.OneCall(fn, k+"chain-storage", "trillian/ctfe/storage.NewIssuanceChainStorage"); c != nil {
 		r.ExpectArg(c, k+"chain-storage.backend", 1, "*Validated.ExtraDataIssuanceChainStorageBackend")
@@ -593,6 +714,87 @@ func c15SetUp(r *Run) {
 		r.ExpectArg(c, k+"roots.pool", 0, "x509util.NewPEMCertPool(*)")
 		r.ExpectArg(c, k+"roots.file", 1, "*RootsPemFile*[*]")
 	}
+}
+
+// c15BackendRoot locates the backend log root used by a getter's GetSTH and checks that it is the root of THIS log:
+// the one GetLatestSignedLogRoot RPC behind it goes to p0.li.rpcClient with LogId p0.li.logID. Returns the glob of
+// the root's origin term in fn ("" when undecided; the failure is recorded).
+func c15BackendRoot(r *Run, fn *ssa.Function, k string) string {
+	const rpcName = "iface(trillian.TrillianLogClient).GetLatestSignedLogRoot"
+	host, root := fn, ""
+	inCaller := func(term string) string { return term }
+	switch calls := CallsTo(fn, c15cfg+"getSignedLogRoot"); {
+	case len(calls) == 1 && calls[0].Common().StaticCallee() != nil:
+		c := calls[0]
+		host, root = c.Common().StaticCallee(), "trillian/ctfe.getSignedLogRoot(*)#0"
+		inCaller = func(term string) string { return r.substParams(term, c) }
+	case len(calls) == 0:
+		var allocs []string
+		for _, u := range CallsTo(fn, "(*types.LogRootV1).UnmarshalBinary") {
+			a := baseAlloc(CallArgs(u)[0])
+			from := false
+			for _, rpc := range CallsTo(fn, rpcName) {
+				from = from || c15DerivesFrom(CallArgs(u)[1], rpc.Value(), 8)
+			}
+			if a != nil && from {
+				allocs = append(allocs, r.D.allocName(a))
+			}
+		}
+		if len(allocs) != 1 {
+			r.Fail(k+"root", r.FnPos(fn), fmt.Sprintf("expected exactly one call to %sgetSignedLogRoot in %s (or its body: one LogRootV1 decoded from the backend's answer), found 0 calls and %d decoded roots", c15cfg, FuncName(fn), len(allocs)))
+			return ""
+		}
+		root = allocs[0]
+	default:
+		r.Fail(k+"root", r.FnPos(fn), fmt.Sprintf("expected exactly one call to %sgetSignedLogRoot in %s, found %d", c15cfg, FuncName(fn), len(calls)))
+		return ""
+	}
+	rpcs := CallsTo(host, rpcName)
+	if len(rpcs) != 1 {
+		r.Fail(k+"root.client", r.FnPos(host), fmt.Sprintf("undecided: expected exactly one %s in %s, found %d", rpcName, FuncName(host), len(rpcs)))
+		return root
+	}
+	client := inCaller(r.D.D(CallArgs(rpcs[0])[0]))
+	r.Check(k+"root.client", client == "p0.li.rpcClient", r.Where(rpcs[0]), "the root is fetched from backend client "+client+" (expected p0.li.rpcClient)")
+	req := baseAlloc(CallArgs(rpcs[0])[2])
+	n := 0
+	if req != nil {
+		for _, st := range r.storesAt(host, "&("+r.D.allocName(req)+".LogId)") {
+			n++
+			id := inCaller(r.D.D(st.Val))
+			r.Check(k+"root.logID", id == "p0.li.logID", r.Where(st), "the root is fetched for tree id "+id+" (expected p0.li.logID)")
+		}
+	}
+	if n == 0 {
+		r.Fail(k+"root.logID", r.Where(rpcs[0]), "undecided: the request's LogId is never set in "+FuncName(host))
+	}
+	return root
+}
+
+// c15DerivesFrom: v is computed from src (through calls, selections, loads, conversions).
+func c15DerivesFrom(v, src ssa.Value, depth int) bool {
+	if v == src {
+		return true
+	}
+	in, ok := v.(ssa.Instruction)
+	if !ok || depth == 0 {
+		return false
+	}
+	for _, op := range in.Operands(nil) {
+		if *op != nil && c15DerivesFrom(*op, src, depth-1) {
+			return true
+		}
+	}
+	return false
+}
+
+// c15OwnField: term is "p0.<f>" with <f> a field of the ctfe struct typ; returns <f> ("" otherwise).
+func c15OwnField(r *Run, typ, term string) string {
+	f := strings.TrimPrefix(term, "p0.")
+	if f == term || strings.ContainsAny(f, ".[(") || r.P.LookupField(c15cfg+typ+"."+f) == nil {
+		return ""
+	}
+	return f
 }
 
 // c15Empty is the cause "the string <term> is empty", whichever way it is tested
